@@ -1078,6 +1078,7 @@ def main(tier):
         nmods += 1
         run.count("modules_%s_bigrow" % fs)
         c18v_layer.check_big(run, Rng(run.seed * 7919 + 18005 + len(fs)), model, bm, tier, mrun)
+        c18v_layer.check_big_oer(run, Rng(run.seed * 7919 + 18105 + len(fs)), bm, tier)
     for mods, probes in built:
         for p in probes:
             run.case("%s build %s" % (p["fs"], p["name"]))
